@@ -559,6 +559,125 @@ fn case_kcprune(r: &mut Rng, id: usize, out: &mut String) {
 }
 // x-kprune end -----------------------------------------------------------------------------------------------------
 
+// x-kelim begin ----------------------------------------------------------------------------------------------------
+/// cached states on ANY node below the root of a K = 4 tree, all of them sound: FeasibleWitness with points of the node's
+/// own closed region, Feasible where such a point exists, Infeasible where the solver itself finds the closed path
+/// polytope empty
+fn plant_states4_any(r: &mut Rng, t: &mut AffTree<4>, one_in: u32) {
+    use affinitree::pwl::node::NodeState;
+    let n = t.in_dim();
+    let idxs: Vec<usize> = t.tree.node_indices().collect();
+    for i in idxs {
+        if i == t.tree.get_root_idx() || !r.chance(1, one_in) {
+            continue;
+        }
+        let rows = path_rows4(t, i);
+        let mut inside = Vec::new();
+        for _ in 0..8 {
+            let x = gen_point(r, n);
+            if rows.iter().all(|(a, b)| a.dot(&x) <= *b) {
+                inside.push(x);
+            }
+        }
+        if !inside.is_empty() {
+            inside.truncate(1 + r.below(3));
+            let st = if r.chance(1, 4) { NodeState::Feasible } else { NodeState::FeasibleWitness(inside) };
+            t.tree.node_value_mut(i).unwrap().state = st;
+        } else if !rows.is_empty() {
+            let mut a = Array2::<f64>::zeros((rows.len(), n));
+            let mut b = Array1::<f64>::zeros(rows.len());
+            for (k, (row, bias)) in rows.iter().enumerate() {
+                a.row_mut(k).assign(row);
+                b[k] = *bias;
+            }
+            if matches!(Polytope::from_mats(a, b).status(), PolytopeStatus::Infeasible) {
+                t.tree.node_value_mut(i).unwrap().state = NodeState::Infeasible;
+            }
+        }
+    }
+}
+
+fn run_elim4(t: &AffTree<4>) -> (Result<(AffTree<4>, String), String>, Vec<Event>) {
+    let mut h = t.clone();
+    verif_hook::start(HashMap::new());
+    let res = catch(AssertUnwindSafe(|| {
+        let c = h.infeasible_elimination();
+        format!(
+            "(counter {} {} {} {} {} {} {} {} {})",
+            c.nodes_checked,
+            c.cached_state,
+            c.skipped_nodes,
+            c.parent_sol_inherited,
+            c.mirror_iter.len(),
+            c.lps_solved,
+            c.lps_feasible,
+            c.lps_infeasible,
+            c.lps_error
+        )
+    }));
+    let log = verif_hook::stop();
+    (res.map(|c| (h, c)), log)
+}
+
+/// infeasible_elimination on AffTree<4>: two-row predicates (labels 0..3), one-row predicates (slots 2, 3 empty), empty
+/// slots, cached states from planted marks or from an earlier elimination followed by a further layer
+fn case_kelim(r: &mut Rng, id: usize, out: &mut String) {
+    let n = 1 + r.below(2);
+    let m = 1 + r.below(2);
+    let which = r.below(8);
+    let (gen, mut t): (&str, AffTree<4>) = if which < 4 {
+        // axis decisions: the quadrants of a corner below a bounded path are often empty (pruned edges, forwarded nodes)
+        let mut term = |r: &mut Rng| gen_aff(r, m, n, 4);
+        let pp = [0, 0, 0, 20, 40][r.below(5)];
+        let depth = 1 + r.below(3);
+        ("axis4", gen_axis_tree4(r, n, depth, pp, &mut term))
+    } else if which < 6 {
+        let cfg = TreeCfg { depth: 1 + r.below(3), partial_pct: [0, 0, 25][r.below(3)], early_leaf_pct: 20, maxk: 4, term_pool: 0 };
+        ("random4", gen_tree::<4>(r, n, m, cfg))
+    } else {
+        // a tree that went through an elimination and then received a further layer: the second elimination starts from
+        // the cached states of the first (incl. Infeasible marks kept on last remaining children)
+        let mut ident = |_: &mut Rng| AffFunc::identity(n);
+        let pp = [0, 0, 25][r.below(3)];
+        let depth = 1 + r.below(2);
+        let mut t = gen_axis_tree4(r, n, depth, pp, &mut ident);
+        let before = t.clone();
+        if catch(AssertUnwindSafe(|| t.infeasible_elimination())).is_err() {
+            t = before;
+        } else {
+            let mut term = |r: &mut Rng| gen_aff(r, m, n, 4);
+            let lp = [0, 0, 25][r.below(3)];
+            let layer = gen_axis_tree4(r, n, 1, lp, &mut term);
+            let snapshot = t.clone();
+            if catch(AssertUnwindSafe(|| t.compose::<false, false>(&layer))).is_err() {
+                t = snapshot;
+            }
+        }
+        ("rehist4", t)
+    };
+    if r.chance(1, 2) {
+        let one_in = [2, 3, 6][r.below(3)];
+        plant_states4_any(r, &mut t, one_in);
+    }
+    let before = sx_tree(&t);
+    let (res, log) = run_elim4(&t);
+    match res {
+        Ok((h, counter)) => {
+            let (res2, _log2) = run_elim4(&h);
+            let second = match res2 {
+                Ok((h2, c2)) => format!("{} {}", sx_tree(&h2), c2),
+                Err(_) => "panic -".to_string(),
+            };
+            let pts = sx_points(r, &h, 4);
+            out.push_str(&format!("(case {} kelim {} {} ok {} {} {} {} {})\n", id, gen, before, sx_tree(&h), counter, sx_log(&log), second, pts));
+        }
+        Err(_) => {
+            out.push_str(&format!("(case {} kelim {} {} panic - - {} - - (pts ))\n", id, gen, before, sx_log(&log)));
+        }
+    }
+}
+// x-kelim end ------------------------------------------------------------------------------------------------------
+
 fn fault_of(kind: usize) -> Fault {
     match kind {
         0 => Fault::Error,
@@ -781,6 +900,9 @@ fn main() {
                 if id % 15 == 14 {
                     // x-kprune: one pruned composition in five runs on AffTree<4> operands (own case kind)
                     guard(id, &mut out, |out| case_kcprune(&mut cr, id, out))
+                } else if id % 15 == 13 {
+                    // x-kelim: one elimination in ten runs on an AffTree<4> (own case kind)
+                    guard(id, &mut out, |out| case_kelim(&mut cr, id, out))
                 } else if id % 3 == 2 {
                     guard(id, &mut out, |out| case_cprune(&mut cr, id, out))
                 } else {
